@@ -68,6 +68,8 @@ def render_fg(colour_texts, st, cpos, pad=("", "")):
     parts = [STYLES[s - 1] for s in st]
     for pos, txt in sorted(zip(cpos, colour_texts), reverse=True):
         parts.insert(min(pos, len(parts)), txt)
+    if callable(pad):   # every part gets its own surrounding blanks
+        return ",".join(q[0] + p + q[1] for p, q in ((p, pad()) for p in parts))
     return ",".join(pad[0] + p + pad[1] for p in parts) if (pad[0] or pad[1]) else ",".join(parts)
 
 
@@ -327,6 +329,19 @@ def build_events(chk, d, quick):
             ev.append(valid_event(rng, d, x, some_styles(rng) if rng.random() < 0.2 else [], partner(rng, d)))
         else:
             ev.append(valid_event(rng, d, partner(rng, d), [], x))
+    # C2. 24-bit colours at the palette depths: every leading hex digit of every channel (the channel is cut to it before the cube
+    #     is looked up), with arbitrary low digits; quick: every digit per channel beside two random channels, thorough: all 16^3
+    if d in (88, 256):
+        if quick:
+            highs = [[h if c == k else rng.randrange(16) for k in range(3)] for c in range(3) for h in range(16) for _ in range(2)]
+        else:
+            highs = [[r, g, b] for r in range(16) for g in range(16) for b in range(16)]
+        for i, hs in enumerate(highs):
+            x = D("rgb6", *(16 * h + rng.randrange(16) for h in hs))
+            if (i + sum(hs)) % 2:
+                ev.append(valid_event(rng, d, x, [], partner(rng, d, rich=False)))
+            else:
+                ev.append(valid_event(rng, d, partner(rng, d, rich=False), [], x))
     # D. the rejections the property names
     words = WORDS + [rand_word(rng) for _ in range(60 if quick else 1500)]
     for i, w in enumerate(words):
@@ -355,8 +370,12 @@ def build_events(chk, d, quick):
         st = some_styles(rng) or [rng.randint(1, 6)]
         st.insert(rng.randint(0, len(st)), rng.choice(st))
         p = partner(rng, d)
-        ev.append(spec_event(d, [p], st, D("default"), render_fg([render(p)], st, [rng.randint(0, len(st))],
-                                                                 rng.choice([("", ""), (" ", " ")])), "default", cat="dup_setting"))
+        blanks = ["", "", " ", "  ", "\t"]
+        pad = rng.choice([("", ""), (" ", " "), lambda: (rng.choice(blanks), rng.choice(blanks)), lambda: (rng.choice(blanks), rng.choice(blanks))])
+        ev.append(spec_event(d, [p], st, D("default"), render_fg([render(p)], st, [rng.randint(0, len(st))], pad), "default", cat="dup_setting"))
+    for i in range(1, 7):   # the two occurrences of one setting differ only in their surrounding blanks
+        for a, b in ((STYLES[i - 1], " " + STYLES[i - 1]), (STYLES[i - 1] + " ", STYLES[i - 1]), (" " + STYLES[i - 1], STYLES[i - 1] + "\t")):
+            ev.append(spec_event(d, [], [i, i], D("none"), a + "," + b, "", cat="dup_setting"))
     for _ in range(120 if quick else 3000):
         p, q = partner(rng, d), partner(rng, d)
         if p["k"] == "none" or q["k"] == "none":
@@ -502,17 +521,17 @@ SPECIFICATION Spec
 {invs}
 CHECK_DEADLOCK FALSE
 """
-INVS = ["Idempotent", "ExactPreserved", "EuclidNearest", "GrayNearest", "RefSatisfies", "MinDepthMinimal", "MidpointLookupOK"]
+INVS = ["Idempotent", "ExactPreserved", "EuclidNearest", "GrayNearest", "RefSatisfies", "MinDepthMinimal", "MidpointLookupOK", "Rgb6ReductionOK"]
 
 
 def run_models(quick):
     """The three model-checking runs; returns (result of the laws run, [(variant, invariant, result)])."""
-    vals = [0, 95, 112, 139, 224, 255] if quick else EDGE[::2] + [255]
+    vals = [0, 48, 95, 112, 139, 224, 255] if quick else sorted(set(EDGE[::2] + [255] + [16 * h + 9 for h in range(16)]))
     cfg = MC_CFG.format(v="ref", vals=", ".join(map(str, vals)), invs="\n".join("INVARIANT " + i for i in INVS))
     r = tlc.mc("AttrSpec", cfg, workers=6, timeout=3000)
-    bads = (("desc88_uses_256_steps", "Idempotent"), ("gray245_typo", "MidpointLookupOK"))
-    with cf.ThreadPoolExecutor(2) as ex:   # two short runs, 3 workers each
-        runs = list(ex.map(lambda bi: tlc.mc("AttrSpec", MC_CFG.format(v=bi[0], vals="0, 255", invs="INVARIANT " + bi[1]), workers=3,
+    bads = (("desc88_uses_256_steps", "Idempotent"), ("gray245_typo", "MidpointLookupOK"), ("rgb6_snapped_twice", "Rgb6ReductionOK"))
+    with cf.ThreadPoolExecutor(3) as ex:   # three short runs, 2 workers each
+        runs = list(ex.map(lambda bi: tlc.mc("AttrSpec", MC_CFG.format(v=bi[0], vals="0, 48, 255", invs="INVARIANT " + bi[1]), workers=2,
                                              timeout=1200), bads))
     return r, [(b, i, rb) for (b, i), rb in zip(bads, runs)]
 
@@ -621,6 +640,26 @@ def run(chk):
             "256.dup_setting.AttrSpecError", "256.two_colours.AttrSpecError", "16.beyond_depth.AttrSpecError", "1.beyond_depth.AttrSpecError",
             "88.beyond_depth.AttrSpecError", "256.malformed.AttrSpecError", "256.malformed.accepted", "256.pair.equal", "256.pair.unequal",
             "16777216.pair.equal"]
+    # the families added for blank-padded duplicates and for the leading digits of 24-bit colours at the palette depths
+    for d in DEPTHS:
+        n = 0
+        for e in allev:
+            if e["t"] == "spec" and e["d"] == d and e["cat"] == "dup_setting":
+                parts = e["fi"].split(",")
+                n += any(a != b and a.strip() == b.strip() and a.strip() in STYLES for a, b in itertools.combinations(parts, 2))
+        counts[f"{d}.dup_setting.differently_padded"] = n
+        need.append(f"{d}.dup_setting.differently_padded")
+    for d in (88, 256):
+        for side, key in (("fg", "fc"), ("bg", "bg")):
+            seen = set()
+            for e in allev:
+                if e["t"] == "spec" and e["d"] == d and e["cat"] == "valid" and e["exc"] == "":
+                    x = (e["fc"][0] if e["fc"] else D("none")) if side == "fg" else e["bg"]
+                    if x["k"] == "rgb6":
+                        seen |= {(c, x[c] >> 4) for c in "abc"}
+            counts[f"{d}.accepted.{side}.rgb6.leading_digits"] = len(seen)
+            if len(seen) < 48:
+                chk.vacuity.append(f"driver.{d}.accepted.{side}.rgb6.leading_digits={len(seen)}/48")
     for k in need:
         if not counts.get(k):
             chk.vacuity.append("driver." + k)
@@ -630,8 +669,9 @@ def run(chk):
     chk.assumptions += [
         "gray values ('gN', 'g#NN') go to the nearest of cube black, the gray ramp and cube white (as documented), not to gray entries inside the cube",
         "a per-cent gray is p*255/100 rounded either way; ties between two equally near entries may go either way",
-        "a 24-bit '#rrggbb' at 88/256 colours: the statement names 'colour-cube and gray values', so only 'a cube entry, exact cube steps kept' "
-        "is demanded; not-nearest results are reported as DIVERGENCE rgb6_not_nearest_cube",
+        "a 24-bit '#rrggbb' at 88/256 colours: per channel an exact cube step is kept, otherwise the nearest cube step of the 8-bit value "
+        "or of its leading hex digit (read as '#rgb') is demanded (clause nearest_cube); results that are nearest only for the leading "
+        "digit are reported as DIVERGENCE rgb6_not_nearest_cube",
         "min_depth accepts either reading of 'smallest depth that can express the specification' (by colour kinds, or the depth at which an "
         "equal object can be built); results matching only one reading are reported as DIVERGENCE",
         "the rebuilt specification is AttrSpec(spec.foreground, spec.background, same depth)",
